@@ -204,6 +204,48 @@ class Built:
             omro._verif_reorder = None
 
 
+class BuiltClass(Built):
+    """The same program written as the methods `f` of one OvldBase class body (every method takes self first); calls go
+    through an instance.  Only bodies that return are generated (delegation through a class is C17's and C09's subject)."""
+
+    def __init__(self, world, defs, utab=None, hook=True):
+        self.w = world
+        self.predlog = []
+        self.dec = Decoder(world, utab=utab, predlog=self.predlog)
+        self.log = []
+        self.fns = {}
+        self.by_orig = {}
+        self.hook = hook
+        self.type_objs = {}
+        glb = {"LOG": self.log, "DEFAULT": DEFAULT, "OvldBase": ovld.OvldBase, "ovld": ovld.ovld, "__name__": "verif_prog_cls"}
+        lines = ["class K(OvldBase):"]
+        for d in defs:
+            mid = d["id"]
+            pnames = d.get("names") or [f"a{i}" for i in range(len(d["pos"]))]
+            params = ["self"]
+            for i, t in enumerate(d["pos"]):
+                glb[f"T{mid}_{i}"] = self.ty(t)
+                params.append(f"{pnames[i]}: T{mid}_{i}" + ("" if i < d["npos_req"] else " = DEFAULT"))
+            if d.get("kw"):
+                params.append("*")
+                for (k, t, req) in d["kw"]:
+                    glb[f"K{mid}_{k}"] = self.ty(t)
+                    params.append(f"k{k}: K{mid}_{k}" + ("" if req else " = DEFAULT"))
+            rec = "LOG.append((%d, {%s}))" % (mid, ", ".join(f"'a{i}': {n}" for i, n in enumerate(pnames)) + "".join(f", 'k{k}': k{k}" for (k, _, _) in d.get("kw", [])))
+            lines += [f"    @ovld(priority={d.get('prio', 0)})", f"    def f({', '.join(params)}):", f"        {rec}", f"        return ('ret', {mid})", ""]
+        src = "\n".join(lines) + "\n"
+        fname = f"<verif-progcls-{next(_file_ids)}>"
+        linecache.cache[fname] = (len(src), None, src.splitlines(True), fname)
+        exec(compile(src, fname, "exec"), glb)
+        self.cls = glb["K"]
+        self.obj = self.cls()
+        o = self.cls.__dict__["f"]
+        self.ov = getattr(o, "__ovld__", o)
+
+    def call(self, pos, kw=None, ov=None):
+        return Built.call(self, pos, kw, ov=self.obj.f)
+
+
 def alt_value(v):
     """another value of the same class: -v for ints, reversed for strings and tuples"""
     if isinstance(v, bool):
